@@ -28,6 +28,7 @@ func main() {
 	fixtures := flag.String("fixtures", "", "directory with the key fixtures")
 	concrete := flag.Bool("concrete", false, "replay: the cases file holds trace lines")
 	allFlips := flag.Bool("allflips", false, "flip every byte position of every part")
+	flag.IntVar(&scopeReps, "scopereps", 8, "concretisations of every case with required scopes")
 	flag.Parse()
 
 	if err := run(*casesPath, *tracePath, *fixtures, *seed, *workers, *concrete, *allFlips, out); err != nil {
@@ -35,6 +36,8 @@ func main() {
 		os.Exit(2)
 	}
 }
+
+var scopeReps = 8 //nolint:gochecknoglobals
 
 func run(casesPath, tracePath, fixtures string, seed int64, workers int, concrete, allFlips bool, out *os.File) error {
 	f, err := os.Open(casesPath)
@@ -66,6 +69,15 @@ func run(casesPath, tracePath, fixtures string, seed int64, workers int, concret
 		}
 
 		cases = append(cases, c)
+
+		// cases with required scopes are concretised several times: the spelling of the required and
+		// the granted scopes (matching strategy, near misses) is chosen per case id
+		if !concrete && (len(c.Rule.Scp) != 0 || len(c.Mech.Scp) != 0) {
+			for r := 1; r < scopeReps; r++ {
+				c.ID = fmt.Sprintf("c%d", len(cases)+1)
+				cases = append(cases, c)
+			}
+		}
 	}
 
 	if err := sc.Err(); err != nil {
